@@ -142,6 +142,21 @@ def check_h(acc, name, s, t, q, u, data):
     Ju = fd.affine_jac(lambda v: lib("System.h", s.h, t, q, v), s.nu, x0=u)
     acc.evals += s.nu + 3
     compare(acc, f"{name}: System.h_u vs d/du System.h", Hu, Ju, 0.0, data)
+    if np.any(u != 0.0):
+        # creeping motion: h is affine in u (as the line above already uses), hence so is h_q; the same generalised velocity
+        # scaled down to 1e-9 and 3e-10 must give exactly the scaled velocity-dependent part (relative measure: an error of the
+        # size of the velocity-dependent part itself is invisible to any absolute tolerance at these speeds)
+        H0 = fd.dense(lib("System.h_q", s.h_q, t, q, np.zeros_like(u)))
+        D1 = fd.dense(Hq) - H0
+        for eps in (1e-9, 3e-10):
+            De = fd.dense(lib("System.h_q", s.h_q, t, q, eps * u)) - H0
+            acc.evals += 1
+            err = float(np.max(np.abs(De - eps * D1))) if De.size else 0.0
+            thr = 1e-5 * eps * float(np.max(np.abs(D1))) + 1e-14 * max(1.0, float(np.max(np.abs(H0)))) if De.size else 0.0
+            acc.stat_max("max_err_h_q_creeping_rel", err / thr if thr > 0 else 0.0)
+            if err > thr:
+                acc.fail(f"{name}: System.h_q at a creeping velocity vs scaled velocity-dependent part (h affine in u)",
+                         f"err {err:.3e} > {thr:.3e} at u scaled by {eps:g}", dict(data, err=err, thr=thr, eps=eps))
 
 
 def check_c(acc, name, s, t, q, u, la, data):
